@@ -306,7 +306,13 @@ class Instrument:
                         with contextlib.redirect_stdout(io.StringIO()):
                             st = helper(real_stat.from_file)(file)
                         subj = list(st.subjectnames)
-                    except BaseException as e:  # noqa
+                    except Killed:
+                        raise
+                    except Exception as e:  # noqa
+                        # the real loader raises on a table without rows (observation O1); the exception propagates out of the
+                        # locked region of make_statistic exactly as in real use -- the locks must be free again afterwards
+                        if isinstance(e, IndexError) and lines is not None and len(lines) <= 1:
+                            raise
                         err = type(e).__name__
                 return StatSnapshot(lines, subj, err)
 
@@ -851,6 +857,8 @@ def check_batch(runner, scens, op_base=1600):
             for e in es:
                 if e.startswith("ctor:AssertionError") and mfail:
                     continue
+                if e.startswith("call:IndexError") and sc.get("real_stat"):
+                    continue              # O1: make_statistic on a table without rows raises in Panoptica_Statistic.from_file (not claimed)
                 errs.append(f"aggregator {k}: {e}")
         if bad:
             (k, kind, where), c = bad[0]
@@ -1175,3 +1183,192 @@ def fork_rounds_problems(lines, seq, rep):
 def json_short(x):
     import json
     return json.dumps(x)[:240]
+
+
+THREAD_SMOKE = r"""
+import os, sys, io, contextlib, json, csv, threading
+os.environ["PANOPTICA_CITATION_REMINDER"] = "false"
+sys.path.insert(0, sys.argv[1])
+import numpy as np
+from panoptica import Panoptica_Evaluator, InputType, NaiveThresholdMatching, Panoptica_Aggregator
+from panoptica.metrics import Metric
+from panoptica.utils.label_group import LabelGroup
+from panoptica.utils.segmentation_class import SegmentationClassGroups
+out, n_workers, n_subjects = sys.argv[2], int(sys.argv[3]), int(sys.argv[4])
+sys.setswitchinterval(1e-5)
+def make_evaluator():
+    # class groups of different kinds (one single-instance), a decision threshold above the matching threshold:
+    # per-group work inside evaluate() is not trivial, so free-running threads interleave inside it
+    return Panoptica_Evaluator(expected_input=InputType.UNMATCHED_INSTANCE,
+        instance_matcher=NaiveThresholdMatching(matching_metric=Metric.IOU, matching_threshold=0.1),
+        segmentation_class_groups=SegmentationClassGroups({"organ": LabelGroup(1, single_instance=True), "lesions": LabelGroup([2, 3, 4, 5])}),
+        instance_metrics=[Metric.DSC, Metric.IOU], global_metrics=[Metric.DSC], decision_metric=Metric.IOU, decision_threshold=0.5)
+def subject(i):
+    ref = np.zeros([64, 64], dtype=np.uint8); pred = np.zeros_like(ref)
+    ref[2:30, 2:24] = 1; pred[3 + (i % 3):30, 2:22] = 1
+    ref[40:56, 6:20] = 2; pred[40:56, 6:18 - (i % 4)] = 2
+    ref[40:56, 30:46] = 3; pred[40:56, 30:35 + (i % 2)] = 3          # matched (IoU ~0.3) but below the decision threshold
+    ref[10:24, 40:56] = 4; pred[11:24, 40:56] = 4
+    return pred, ref
+def rows(path):
+    with open(path, "r", encoding="utf8", newline="") as f:
+        return [r for r in csv.reader(f, delimiter="\t", lineterminator="\n")]
+errs = []
+with contextlib.redirect_stdout(io.StringIO()):
+    agg = Panoptica_Aggregator(make_evaluator(), out)
+    names = [f"sub{i:02d}" for i in range(n_subjects)]
+    def work(w):
+        for i in range(w, n_subjects, n_workers):
+            try:
+                p, r = subject(i)
+                agg.evaluate(p, r, names[i])
+            except BaseException as e:
+                errs.append(type(e).__name__ + ":" + str(e)[:80])
+    ts = [threading.Thread(target=work, args=(w,)) for w in range(n_workers)]
+    [t.start() for t in ts]; [t.join(240) for t in ts]
+    seq = Panoptica_Aggregator(make_evaluator(), out.replace(".tsv", "_seq.tsv"))
+    for i in range(n_subjects):
+        p, r = subject(i)
+        seq.evaluate(p, r, names[i])
+print(json.dumps({"alive": [t.is_alive() for t in ts], "errors": errs}))
+"""
+
+
+def thread_smoke(n_workers=4, n_subjects=12):
+    """free-running threads (no scheduler) sharing ONE aggregator and its evaluator; -> (lines, sequential lines, report)"""
+    import json
+    import shutil
+    import subprocess
+    import sys
+    import tempfile
+    d = tempfile.mkdtemp(dir=str(common.WORK))
+    script = Path(d) / "threads.py"
+    script.write_text(THREAD_SMOKE)
+    out = str(Path(d) / "threads.tsv")
+    try:
+        p = subprocess.run([sys.executable, str(script), str(common.REPO), out, str(n_workers), str(n_subjects)], capture_output=True, text=True,
+                           timeout=600, env=dict(os.environ, PYTHONHASHSEED="0"))
+        txt = p.stdout.strip().split("\n")[-1] if p.stdout.strip() else p.stderr[-500:]
+    except subprocess.TimeoutExpired:
+        txt = "timeout"
+    try:
+        rep = json.loads(txt)
+    except Exception:
+        rep = {"raw": txt}
+    lines = read_lines(out)
+    seq = read_lines(out.replace(".tsv", "_seq.tsv"))
+    shutil.rmtree(d, ignore_errors=True)
+    return lines, seq, rep
+
+
+def thread_smoke_problems(lines, seq, rep):
+    if "raw" in rep:
+        return ["the threaded run did not complete: " + str(rep["raw"])[:200]]
+    probs = []
+    if any(rep.get("alive", [])):
+        probs.append("a worker thread never returned")
+    if rep.get("errors"):
+        probs.append("evaluate raised in a thread: " + json_short(rep["errors"]))
+    if lines is None or seq is None:
+        return probs + ["output file missing"]
+    names = [r[0] for r in lines[1:]]
+    dup = sorted({n for n in names if names.count(n) > 1})
+    if dup:
+        probs.append(f"subjects with more than one row: {dup}")
+    if lines[:1] != seq[:1]:
+        probs.append("header differs from a sequential run")
+    a, b = {r[0]: r[1:] for r in lines[1:]}, {r[0]: r[1:] for r in seq[1:]}
+    if set(a) != set(b):
+        probs.append(f"subjects differ from a sequential run: {sorted(set(a) ^ set(b))}")
+    hdr = lines[0][1:] if lines else []
+    for n in sorted(set(a) & set(b)):
+        diff = [(hdr[i] if i < len(hdr) else i, x, y) for i, (x, y) in enumerate(zip(a[n], b[n])) if x != y]
+        if diff:
+            probs.append(f"row of {n} differs from a sequential run: " + "; ".join(f"{k}: {x} vs {y}" for k, x, y in diff[:3]))
+            break
+    return probs
+
+
+RESTART_SESSION = r"""
+import os, sys, io, contextlib, json
+os.environ["PANOPTICA_CITATION_REMINDER"] = "false"
+sys.path.insert(0, sys.argv[1])
+import numpy as np
+from panoptica import Panoptica_Evaluator, InputType, NaiveThresholdMatching, Panoptica_Aggregator
+from panoptica.metrics import Metric
+from panoptica.utils.label_group import LabelGroup
+from panoptica.utils.segmentation_class import SegmentationClassGroups
+out, names, kill_after = sys.argv[2], json.loads(sys.argv[3]), int(sys.argv[4])
+ev = Panoptica_Evaluator(expected_input=InputType.UNMATCHED_INSTANCE, instance_matcher=NaiveThresholdMatching(matching_threshold=0.3),
+        segmentation_class_groups=SegmentationClassGroups({"liver": LabelGroup([1]), "kidney": LabelGroup([2]), "spleen": LabelGroup([3]),
+                                                           "lesion": LabelGroup([4, 5])}),
+        instance_metrics=[Metric.DSC, Metric.IOU], global_metrics=[Metric.DSC])
+def subject(name):
+    i = sum(map(ord, name))
+    ref = np.zeros((12, 24), np.uint8); pred = np.zeros_like(ref)
+    for k, lab in enumerate((1, 2, 3, 4)):
+        ref[2:8, 1 + 6 * k:5 + 6 * k] = lab
+        pred[2 + (i + k) % 3:8, 1 + 6 * k:5 + 6 * k - (i % 2)] = lab
+    return pred, ref
+with contextlib.redirect_stdout(io.StringIO()):
+    agg = Panoptica_Aggregator(ev, out)
+    for n, name in enumerate(names):
+        if n == kill_after:
+            os._exit(9)                 # the process dies: no atexit handler, the buffer file stays behind
+        p, r = subject(name)
+        agg.evaluate(p, r, name)
+print("done")
+"""
+
+
+def restart_smoke(rng, n_subjects=4):
+    """sessions in separate interpreter processes with DIFFERENT hash seeds on one output file: session 1 is killed after k subjects,
+    session 2 resubmits everything; reference: one uninterrupted session.  -> (lines, sequential lines, report)"""
+    import json
+    import shutil
+    import subprocess
+    import sys
+    import tempfile
+    d = tempfile.mkdtemp(dir=str(common.WORK))
+    script = Path(d) / "session.py"
+    script.write_text(RESTART_SESSION)
+    names = [f"sub-{i:02d}" for i in range(n_subjects)]
+    out, seq = str(Path(d) / "restart.tsv"), str(Path(d) / "uninterrupted.tsv")
+    k = rng.randint(1, n_subjects - 1)
+    seeds = rng.sample(range(1, 1000), 3)
+    rep = {"killed_after": k, "hash_seeds": seeds, "steps": []}
+
+    def run(path, kill, seed):
+        p = subprocess.run([sys.executable, str(script), str(common.REPO), path, json.dumps(names), str(kill)], capture_output=True, text=True,
+                           timeout=600, env=dict(os.environ, PYTHONHASHSEED=str(seed)))
+        rep["steps"].append({"exit": p.returncode, "stderr": p.stderr.strip().splitlines()[-1:] if p.returncode not in (0, 9) else []})
+        return p.returncode
+    try:
+        run(out, k, seeds[0])
+        run(out, -1, seeds[1])
+        run(seq, -1, seeds[2])
+    except subprocess.TimeoutExpired:
+        rep["steps"].append({"exit": "timeout"})
+    lines, sq = read_lines(out), read_lines(seq)
+    shutil.rmtree(d, ignore_errors=True)
+    return lines, sq, rep
+
+
+def restart_smoke_problems(lines, seq, rep):
+    probs = []
+    exits = [s_.get("exit") for s_ in rep.get("steps", [])]
+    if exits[:1] != [9]:
+        probs.append(f"the first session did not run up to its kill point (exit {exits[:1]})")
+    if len(exits) > 1 and exits[1] != 0:
+        probs.append(f"the restarted session (same arguments, a fresh interpreter) failed: exit {exits[1]} {rep['steps'][1].get('stderr')}")
+    if lines is None or seq is None:
+        return probs + ["output file missing"]
+    if lines[:1] != seq[:1]:
+        probs.append("header differs from an uninterrupted run")
+    names = [r[0] for r in lines[1:]]
+    dup = sorted({n for n in names if names.count(n) > 1})
+    if dup:
+        probs.append(f"subjects with more than one row: {dup}")
+    if sorted(map(tuple, lines[1:])) != sorted(map(tuple, seq[1:])):
+        probs.append("rows differ from an uninterrupted run")
+    return probs
